@@ -118,6 +118,65 @@ CHECKS = {
             "iterations, reduction factor, error figures) must equal a freshly constructed solver's.",
             "Trusted: a fresh object is the specification. Input functions are fixed per object.",
             "DESIGN.md 5/C13"),
+    "C02": ("cfglat", "exploration",
+            "exhaustive enumeration of the shipped problem table on a refinement chain, observed-order oracle",
+            "All 63 smooth shipped triples x interior boundary x {give, take (+ uncached give variants)} x {no, implicit} "
+            "extrapolation are solved on the chain divideBy2 = 1,2(,3); the observed order between successive refinements "
+            "must be >= 1.75 without and >= 3.2 / 2.5 (weighted l2 / max) with extrapolation, and on the finest grid the "
+            "extrapolated error must be the smaller one. The three Poisson x Czarny triples are a recorded finding (F1).",
+            "Exploration: the mesh width is a continuum, the order is judged on a stated chain. Errors are computed by the harness.",
+            "DESIGN.md 5/C02"),
+    "C10": ("opalg+histbfs", "model_checking",
+            "enumeration of cycle configurations; dense exact-solution fixed point, exhaustive unit-vector comparison with the algebraic correction, object histories",
+            "The six private cycle functions are called directly for L = 2,3(,4) levels x pre,post in {0,1,2}^2 x strategy x "
+            "boundary: (a) started from the dense exact solution of the (extrapolated) system a cycle must return it (with a "
+            "control start that must move), (b) for L = 2 without smoothing the cycle is compared on EVERY unit iterate and unit "
+            "right-hand side with u + P A_c^-1 R (f - A u) resp. the extrapolated formula formed from the public operators, "
+            "(c) dirty work vectors and (d) repeated cycles on one object must not change the result bitwise.",
+            "Trusted: dense Gaussian elimination in the harness; the definition of the extrapolated system (DESIGN.md).",
+            "DESIGN.md 5/C10"),
+    "C11": ("mcomp", "model_checking",
+            "stateless schedule exploration (deviation-bounded permutations of barrier-delimited blocks) of the real OpenMP code under a replaced runtime, exact per-epoch happens-before race oracle",
+            "The library, compiled with -fopenmp -fsanitize=thread, is linked with mcomp instead of libgomp/libtsan: team members "
+            "are coroutines, scheduling points are barriers, every access of every member is recorded per barrier epoch at byte "
+            "granularity and any byte written by one member and touched by another in the same epoch is a race. Explored: the "
+            "identity schedule plus every single-epoch deviation for 8 stencil operators x 48 shapes x team sizes, level caches, "
+            "transfers, vector kernels and whole setup()+solve() runs. A clean epoch makes all its interleavings equivalent.",
+            "Assumes barriers are the only synchronisation (true for this code base: no locks, atomics only in reductions). "
+            "Trusted: the compiler's TSan instrumentation plus the runtime's memmove/memcpy/memset logging, checked by a "
+            "write-completeness audit. g++ lowering only.",
+            "DESIGN.md 2.1, 5/C11"),
+    "C12": ("mcomp", "model_checking",
+            "schedule exploration with bitwise output/access-set comparison + bitwise differential against free-running libgomp + cross-thread-count comparison",
+            "For every case all explored schedules must give bit-identical outputs and access sets; the same instrumented "
+            "objects linked with the real libgomp and run three times on real threads must give the same bits as the explorer; "
+            "results for team sizes 1..16(32) are compared with the single-thread result within re-association tolerances; "
+            "reduction kernels are judged for every arrival order explored; the threads-per-level table is enumerated for 1..32 threads.",
+            "Trusted: the single-thread run as reference; tolerances per operator class.",
+            "DESIGN.md 5/C12"),
+    "C18": ("enumerators", "fault_enumeration",
+            "exhaustive enumeration of grid-generation parameters and single-token file faults, each in a forked child under ASan+UBSan in two builds",
+            "Every combination of nr_exp, ntheta_exp, anisotropic factor, divideBy2, three domains and 14-18 refinement radii "
+            "(inside, at and outside [R0, Rmax], incl. the command-line default 0) is constructed with assertions on and with "
+            "NDEBUG; each is either rejected by an exception or yields a grid satisfying the validity, midpoint, nesting and "
+            "level-count invariants; grid files are round-tripped and every single-token fault at 9 positions is injected.",
+            "Trusted: the validity invariants in harness/c18_grid.cpp.",
+            "DESIGN.md 5/C18"),
+    "C19": ("enumerators", "exploration",
+            "exhaustive enumeration of the selection table, each class on a generic point lattice against high-order numerical differentiation",
+            "All 128 option tuples go through the real selectTestCase(); the 77 selectable quintuples are evaluated on a generic "
+            "12x16 (24x32) lattice: Jacobians vs differentiated mapping (Culham included), rhs_f vs -div(alpha grad u)+beta u by "
+            "nested 6th-order differences at three step sizes, boundary data vs exact solution, gyro relation, class names vs options.",
+            "Exploration: points are a continuum; all functions are analytic and the lattice generic.",
+            "DESIGN.md 5/C19"),
+    "C20": ("cfglat", "fault_enumeration",
+            "deviation-bounded enumeration of the option lattice through API and command line under sanitizers, fill-pattern differential, valgrind slice",
+            "3 base configurations + every single deviation over 26 options (+ hand-picked and, thorough, all pairs) run through "
+            "the public API under ASan+UBSan with assertions on and with NDEBUG and through the gmgpolar executable (plus invalid "
+            "enum integers that must be rejected); completed runs are repeated in the release build with two stack/heap fill "
+            "patterns (statistics must be bit-identical) and a slice runs under valgrind memcheck.",
+            "Option values outside the documented kinds (negative sizes / thread counts) are not in the alphabet.",
+            "DESIGN.md 5/C20"),
 }
 
 NOT_YET = {}
@@ -159,11 +218,15 @@ def main():
             "add_only": True,
         },
         "engines": [
-            {"name": "enumerators", "path": "harness/", "serves_properties": ["C14", "C16", "C17"],
+            {"name": "enumerators", "path": "harness/", "serves_properties": ["C14", "C16", "C17", "C18", "C19"],
              "kind_free_text": "nested-loop exhaustive enumerators over finite alphabets on the real classes"},
             {"name": "opalg", "path": "harness/opalg.cpp + checks/opalg_lib.py", "serves_properties": ["C03", "C04", "C05", "C06", "C07", "C08", "C09", "C10"],
              "kind_free_text": "operator algebra by exhaustive basis enumeration: real operators applied to every unit "
                                "vector on every case of a grid-shape lattice, numpy oracles"},
+            {"name": "mcomp", "path": "engines/mcomp/ + harness/mc_harness.cpp + checks/mc_lib.py", "serves_properties": ["C11", "C12"],
+             "kind_free_text": "OpenMP schedule explorer: own GOMP_*/omp_*/__tsan_* runtime (ucontext team members, barrier "
+                               "epochs, deviation-bounded permutation schedules, exact byte-level race oracle, deterministic "
+                               "arena allocator, write-completeness audit) + free-running libgomp differential"},
             {"name": "cfglat", "path": "harness/gmg.cpp + checks/gmg_lib.py", "serves_properties": ["C01", "C02", "C09", "C13", "C20"],
              "kind_free_text": "option-lattice enumeration of the assembled solver through its public API"},
             {"name": "histbfs", "path": "harness/c15_copymove.cpp, harness/gmg.cpp (hist, fmgstart)", "serves_properties": ["C09", "C13", "C15"],
